@@ -781,20 +781,45 @@ impl Database {
                 }
             }
         } else if let Some(old_value) = undo_data {
+            // what the statement left under the key: a tombstone (DELETE) or the row's new
+            // version (UPDATE)
+            let current: Option<Vec<u8>> = btree.get(&entry.key)?.map(|v| v.to_vec());
+            let was_delete = current.as_deref().is_some_and(|v| {
+                v.len() > crate::mvcc::RecordHeader::SIZE
+                    && crate::mvcc::RecordHeader::from_bytes(v).is_deleted()
+            });
             btree.delete(&entry.key)?;
             btree.insert(&entry.key, old_value)?;
+            if was_delete {
+                // DELETE took the row out of the header's row count
+                let page = table_storage.page_mut(0)?;
+                let header = TableFileHeader::from_bytes_mut(page)?;
+                let new_count = header.row_count() + 1;
+                header.set_row_count(new_count);
+            }
             drop(table_storage);
 
-            let old_row_values: Option<Vec<OwnedValue>> = {
-                let user_data = get_user_data(old_value);
+            let decode_row = |raw: &[u8]| -> Option<Vec<OwnedValue>> {
+                let user_data = get_user_data(raw);
                 if let Ok(record) = RecordView::new(user_data, &schema) {
                     OwnedValue::extract_row_from_record(&record, &columns).ok()
                 } else {
                     None
                 }
             };
+            // UPDATE put the new version's entries into the indexes: take them out again,
+            // then put back the entries of the restored version (DELETE removed them)
+            let new_row_values: Option<Vec<OwnedValue>> = if was_delete {
+                None
+            } else {
+                current.as_deref().and_then(decode_row)
+            };
+            let old_row_values: Option<Vec<OwnedValue>> = decode_row(old_value);
 
-            if let Some(row_values) = old_row_values {
+            for (row_values, add) in [(new_row_values, false), (old_row_values, true)] {
+                let Some(row_values) = row_values else {
+                    continue;
+                };
                 for (col_idx, index_name, _is_pk) in &unique_columns {
                     if file_manager.index_exists(&schema_name, &table_name, index_name) {
                         if let Some(value) = row_values.get(*col_idx) {
@@ -818,7 +843,11 @@ impl Database {
                                 Self::encode_value_as_key(value, key_buf);
 
                                 // index entries point at the row key, exactly as INSERT writes them
-                                let _ = index_btree.insert(key_buf, &entry.key);
+                                if add {
+                                    let _ = index_btree.insert(key_buf, &entry.key);
+                                } else {
+                                    let _ = index_btree.delete(key_buf);
+                                }
                             }
                         }
                     }
@@ -859,7 +888,11 @@ impl Database {
                             if !is_unique_index {
                                 key_buf.extend_from_slice(&entry.key);
                             }
-                            let _ = index_btree.insert(key_buf, &entry.key);
+                            if add {
+                                let _ = index_btree.insert(key_buf, &entry.key);
+                            } else {
+                                let _ = index_btree.delete(key_buf);
+                            }
                         }
                     }
                 }
